@@ -34,6 +34,7 @@ class SymH:
         self.ufs = {}
         self.labels = []
         self.concretize = concretize or {}     # size parameters fixed to small constants (DESIGN 2.6, phase 2)
+        self._inf_axiom()
 
     # ------------------------------------------------------------ symbols
     def _reg(self, name, fn):
